@@ -703,12 +703,84 @@ def check_C06(replay=None):
         return {"ev": "loadfile", "tag": "len%d" % nbytes, "len": nbytes, "o": o if o is not None else 0, "code": code,
                 "refused": any(m in e for m in LOADER_MSGS)}
     events += parallel(loadf, specs, 8)
+    # (4) sub-command / extension dispatch (spec growth beyond the listed property)
+    dd = _wpath("c06_dispatch")
+    _shutil.rmtree(dd, ignore_errors=True)
+    os.makedirs(dd)
+    open(os.path.join(dd, "p.asm"), "w").write("halt\n")
+    vlib.run_lace(["compile", os.path.join(dd, "p.asm"), os.path.join(dd, "p.lc3")])
+    _shutil.copy(os.path.join(dd, "p.lc3"), os.path.join(dd, "p.obj"))
+    _shutil.copy(os.path.join(dd, "p.asm"), os.path.join(dd, "p.txt"))
+    _shutil.copy(os.path.join(dd, "p.asm"), os.path.join(dd, "p"))
+    _shutil.copy(os.path.join(dd, "p.asm"), os.path.join(dd, "p.ASM"))
+    for cmd in ("run", "bare", "debug"):
+        for fn, ext, exists in (("p.asm", "asm", True), ("p.lc3", "lc3", True), ("p.obj", "obj", True), ("p.txt", "txt", True), ("p", "", True),
+                                ("p.ASM", "ASM", True), ("missing.asm", "asm", False), ("missing.lc3", "lc3", False)):
+            path = os.path.join(dd, fn)
+            argv = {"run": ["run", "--minimal", path], "bare": [path, "--minimal"], "debug": ["debug", "--minimal", path, "--command", "quit"]}[cmd]
+            code, out, err = vlib.run_lace(argv)
+            events.append({"ev": "dispatch", "tag": "%s:%s" % (cmd, fn), "cmd": cmd, "ext": ext, "exists": exists, "code": code, "ran": b"Running" in out})
     _cli_validate(chk, events, "cli")
     chk.distinct = chk.evaluations
     chk.samples = [{k: v for k, v in events[0].items() if k != "ast"}, events[len(man) + 1], events[-1]]
     _shutil.rmtree(d, ignore_errors=True)
     _shutil.rmtree(d2, ignore_errors=True)
     return chk.finish()
+
+
+def _watch_smoke(chk):
+    """Drive a real `lace watch`: rewrite the watched file and look at what each re-check prints."""
+    import select
+    import time as _t
+    d = _wpath("c07_watch")
+    _shutil.rmtree(d, ignore_errors=True)
+    os.makedirs(d)
+    f = os.path.join(d, "w.asm")
+    open(f, "w").write("halt\n")
+    phases = [("far", "halt\nld r0 far\n.blkw #300\nfar halt\n", False, []),
+              ("ok", "halt\nadd r0 r0 #1\n", True, []),
+              ("undefined", "halt\nld r0 nowhere\n", False, []),
+              ("ok2", "lea r0 m\nputs\nhalt\nm .stringz \"x\"\n", True, [])]
+    events = []
+    for flags, extra in (([], [("stack-off", "halt\npush r1\n", False, [])]), (["-f", "stack"], [("stack-on", "halt\npush r1\n", True, [])])):
+        open(f, "w").write("halt\n")
+        try:
+            p = _sp.Popen([vlib.LACE_BIN, "watch"] + flags + [f], stdout=_sp.PIPE, stderr=_sp.STDOUT, cwd=d)
+        except Exception:
+            return events
+        try:
+            _t.sleep(1.2)
+            os.set_blocking(p.stdout.fileno(), False)
+            try:
+                p.stdout.read()
+            except Exception:
+                pass
+            for name, text, valid, _ in phases + extra:
+                # rewrite the file, listen for a fixed window, judge by the last complete re-check printed in it
+                try:
+                    p.stdout.read()                # drop anything left over from the previous phase
+                except Exception:
+                    pass
+                with open(f, "w") as fh:           # an editor's save: truncate + write
+                    fh.write(text)
+                buf, t0 = b"", _t.time()
+                while _t.time() - t0 < 2.6:
+                    r, _, _ = select.select([p.stdout], [], [], 0.25)
+                    if r:
+                        buf += p.stdout.read() or b""
+                # verdict of the last COMPLETE re-check printed in the window (a re-check may have been cut off)
+                seen = "none"
+                for seg in buf.split(b"Re-checking")[1:]:
+                    if b"no errors found" in seg:
+                        seen = "success"
+                    elif b"\xc3\x97" in seg or b"Error" in seg:
+                        seen = "error"
+                events.append({"ev": "watch", "tag": name + ("+stack" if flags else ""), "valid": valid, "seen": seen, "exited": p.poll() is not None})
+        finally:
+            p.kill()
+            p.wait()
+    chk.extra["watch_rechecks_observed"] = sum(1 for e in events if e["seen"] != "none")
+    return events
 
 
 def check_C07(replay=None):
@@ -733,6 +805,7 @@ def check_C07(replay=None):
                 "run": rn[0] != 1 and rn[0] != 101, "panic": any(x[0] in (101, -1) or x[0] < -1 for x in (ck, cp, rn)),
                 "codes": [ck[0], cp[0], rn[0]], "src": c["src"]}
     events = parallel(agree, jobs, 8)
+    events += _watch_smoke(chk)
     _cli_validate(chk, events, "agree")
     chk.distinct = chk.evaluations
     chk.samples = [{k: v for k, v in events[0].items() if k != "ast"}, {k: v for k, v in events[-1].items() if k != "ast"}]
